@@ -25,6 +25,8 @@ func init() {
 			{ID: "C08.4", Desc: "revalidation contexts agree on fields", Run: ruleC08_4, MinSites: 2},
 			{ID: "C08.5", Desc: "replace or append; list written back whole", Run: ruleC08_5, MinSites: 2},
 			{ID: "C08.6", Desc: "append-or-replace is decided by the position alone", Run: func(c *Ctx) { ruleReplaceDecision(c, "C08.6") }, MinSites: 1},
+			{ID: "C08.8", Desc: "a Date is supplied for every origin response, a 304 included (the freshened entry's age restarts from it)", Run: func(c *Ctx) { ruleDateRepair(c, "C08.8") }, MinSites: 1},
+			{ID: "C08.9", Desc: "the variant list of a revalidation context is the list the matcher's position refers to", Run: ruleC08_9, MinSites: 1},
 			{ID: "C08.7", Desc: "a validated 200 is storable whatever forced the validation (evaluator ignores request no-cache / max-age)", Run: func(c *Ctx) { ruleEvaluatorRequestDirectives(c, "C08.7") }, MinSites: 1},
 		},
 	})
@@ -246,6 +248,21 @@ func ruleMergeFilter(c *Ctx, rule string) {
 			}
 		}
 	})
+	// nothing else is withheld from the merge: the only constant added to the omitted set is Content-Length (the Age of
+	// a 304, for instance, is the only record of how old the freshened response already is)
+	var extraOmitted []string
+	instrsOf(m, func(in ssa.Instruction) {
+		if mu, ok := in.(*ssa.MapUpdate); ok && !isHTTPHeader(mu.Map.Type()) {
+			if s, ok := constStr(mu.Key); ok && !strings.EqualFold(s, "Content-Length") {
+				extraOmitted = append(extraOmitted, s)
+			}
+		}
+	})
+	if len(extraOmitted) > 0 {
+		c.Fail(rule, "merge-omits-only-framing", "besides hop-by-hop fields the 304 merge withholds only Content-Length", c.P.ShortName(m)+": also withholds "+strings.Join(extraOmitted, ", ")+"; e.g. a 304 carrying `Age: 100` freshens a `max-age=60` response whose age then restarts at 0, and it is served as a fresh HIT")
+	} else {
+		c.Pass(rule, "merge-omits-only-framing", "besides hop-by-hop fields the 304 merge withholds only Content-Length", c.P.ShortName(m))
+	}
 	// every header write in the merge is in a block dominated by a failed membership test on the omitted set
 	var writes []ssa.Instruction
 	instrsOf(m, func(in ssa.Instruction) {
@@ -593,4 +610,85 @@ func sameHeaderValue(a, b ssa.Value) bool {
 		return v
 	}
 	return base(a) == base(b)
+}
+
+// ruleC08_9: the matcher sorts the list it is given in place and returns a position in that order. A revalidation
+// context carries both the list and the position to the storer, which overwrites list[position]. The list of every
+// context must therefore be the very list RoundTrip read and handed to the matcher: its only index-read source is the
+// index read in RoundTrip. (A list read again later is in stored order; the position then names another variant, which
+// is overwritten and lost.)
+func ruleC08_9(c *Ctx) {
+	if !c.Need("C08.9", "validationHandler", "readIndex") {
+		return
+	}
+	if c.A.RevalCtxT == nil || c.A.RefT == nil {
+		return
+	}
+	st, ok := c.A.RevalCtxT.Underlying().(*types.Struct)
+	if !ok {
+		return
+	}
+	refsField := -1
+	for i := 0; i < st.NumFields(); i++ {
+		if sl, ok := st.Field(i).Type().Underlying().(*types.Slice); ok && isPtrToNamed(sl.Elem(), c.A.RefT) {
+			refsField = i
+		}
+	}
+	desc := "the list in a revalidation context comes from the index read in RoundTrip (the one the matcher ordered)"
+	if refsField < 0 {
+		c.Undecided("C08.9", "context-list", desc, "no variant-list field in "+c.A.RevalCtxT.Obj().Name())
+		return
+	}
+	n := 0
+	for fn := range c.A.Reach {
+		instrsOf(fn, func(in ssa.Instruction) {
+			if !c.An.CallsRole(in, "validationHandler") || c.A.roleOf[fn] == "validationHandler" {
+				return
+			}
+			_, args := recvAndArgs(callOf(in))
+			var ctxArg ssa.Value
+			for _, a := range args {
+				if isNamed(a.Type(), c.A.RevalCtxT) {
+					ctxArg = a
+				}
+			}
+			if ctxArg == nil {
+				return
+			}
+			n++
+			where := c.P.ShortName(fn) + "@" + c.P.InstrPos(in)
+			var foreign []string
+			fromRoot := false
+			c.P.TraceBackPath(ctxArg, []int{refsField}, TraceOpts{NoHeapFields: true}, func(v ssa.Value, path []int) bool {
+				if len(path) > 0 {
+					return true
+				}
+				ex, ok := v.(*ssa.Extract)
+				if !ok {
+					return true
+				}
+				call, ok := ex.Tuple.(*ssa.Call)
+				if !ok || !c.An.CallsRole(call, "readIndex") {
+					return true
+				}
+				if call.Parent() == c.A.Root {
+					fromRoot = true
+				} else {
+					foreign = append(foreign, c.P.ShortName(call.Parent())+"@"+c.P.InstrPos(call))
+				}
+				return false
+			})
+			switch {
+			case len(foreign) > 0:
+				c.Fail("C08.9", "context-list fn="+c.P.ShortName(fn), desc, where+": the list may come from another index read ("+strings.Join(foreign, ", ")+") while the position still refers to the matcher's order; the validated response overwrites another variant's record, which is then fetched from the origin again")
+			case !fromRoot:
+				c.Undecided("C08.9", "context-list fn="+c.P.ShortName(fn), desc, where+": no index read found behind the context's list")
+			default:
+				c.Pass("C08.9", "context-list fn="+c.P.ShortName(fn), desc, where)
+			}
+		})
+	}
+	if n == 0 {
+		c.Undecided("C08.9", "context-list", desc, "no call of the validation handler")
+	}
 }
